@@ -108,6 +108,8 @@ func driveC07(t *testing.T, out *vEmitter) {
 		{{Name: "X-Id", Values: []options.HeaderValue{claim("user"), claim("email"), secretV("tail")}}, {Name: "x-id", PreserveRequestValue: true, Values: []options.HeaderValue{claim("preferred_username")}}},
 		{{Name: "X-Times", Values: []options.HeaderValue{claim("created_at"), claim("expires_on")}}, {Name: "X-Unknown", Values: []options.HeaderValue{claim("no_such_claim")}}, {Name: "X-Tokens", Values: []options.HeaderValue{claim("access_token"), claim("refresh_token")}}},
 		{{Name: "X-Forwarded-User", Values: []options.HeaderValue{claim("user")}}, {Name: "X-Forwarded-User", PreserveRequestValue: true, Values: []options.HeaderValue{claim("email")}}},
+		// an entry without any value: the name is only to be stripped
+		{{Name: "X-Forwarded-Roles", Values: nil}, {Name: "X-Forwarded-User", Values: []options.HeaderValue{claim("user")}}, {Name: "X-Kept", PreserveRequestValue: true, Values: nil}},
 	}
 	spoofSets := []func(name string) [][2]string{
 		func(n string) [][2]string { return nil },
@@ -243,7 +245,10 @@ func vC07Legacy(t *testing.T, out *vEmitter) {
 	htp := vWriteFile("c07-htpasswd", "htuser:{SHA}"+base64.StdEncoding.EncodeToString(vSHA1([]byte("htpass")))+"\n")
 	n := 0
 	for mask := 0; mask < 512; mask++ {
-		if !vThorough() && mask%9 != 0 && mask != 511 && mask != 0x1f {
+		// quick: a spread of combinations, plus every single flag alone and the pairs that share a header name
+		low := mask & 0xff
+		single := mask != 0 && mask&(mask-1) == 0 || (mask&0x100 != 0 && low != 0 && low&(low-1) == 0)
+		if !vThorough() && mask%9 != 0 && mask != 511 && mask != 0x1f && !single && low != 0x09 && low != 0x48 && low != 0x50 && low != 0x0a {
 			continue
 		}
 		bit := func(i int) bool { return mask&(1<<i) != 0 }
@@ -343,6 +348,27 @@ func vC07Legacy(t *testing.T, out *vEmitter) {
 						map[string]interface{}{"mask": mask, "kind": r.label, "header": k, "values": up[k]})
 				}
 			}
+			// the Authorization header sent upstream, from the documented meaning of the flags (not from the converted
+			// list): pass-authorization-header = "Bearer <ID token>", pass-basic-auth = "Basic <user:password>"
+			if r.label == "cookie" {
+				var wantAuth []string
+				if lh.PassBasicAuth {
+					u := sess.User
+					if lh.PreferEmailToUser {
+						u = sess.Email
+					}
+					wantAuth = append(wantAuth, "Basic "+base64.StdEncoding.EncodeToString([]byte(u+":"+lh.BasicAuthPassword)))
+				}
+				if lh.PassAuthorization {
+					wantAuth = append(wantAuth, "Bearer "+sess.IDToken)
+				}
+				got := strings.Join(up["Authorization"], ",")
+				// (without skip-auth-strip-headers the legacy options preserve what the client sent under these names)
+				if lh.SkipAuthStripHeaders && (lh.PassBasicAuth || lh.PassAuthorization) && got != strings.Join(wantAuth, ",") {
+					out.Violation("headers/wrong-derived-value", "the Authorization header sent upstream is not the one the pass-* flags describe",
+						map[string]interface{}{"mask": mask, "pass_basic_auth": lh.PassBasicAuth, "pass_authorization_header": lh.PassAuthorization, "got": up["Authorization"], "want": wantAuth})
+				}
+			}
 			// exact expectations for the user / e-mail headers
 			if stripped["X-Forwarded-User"] {
 				want := ""
@@ -371,6 +397,23 @@ func vC07Legacy(t *testing.T, out *vEmitter) {
 		}
 		// auth-only response headers never echo client values
 		res := b.do("GET", "/oauth2/auth", spoof, "")
+		if res.Status == 202 {
+			var wantAuth []string
+			if lh.SetBasicAuth {
+				u := sess.User
+				if lh.PreferEmailToUser {
+					u = sess.Email
+				}
+				wantAuth = append(wantAuth, "Basic "+base64.StdEncoding.EncodeToString([]byte(u+":"+lh.BasicAuthPassword)))
+			}
+			if lh.SetAuthorization {
+				wantAuth = append(wantAuth, "Bearer "+sess.IDToken)
+			}
+			if got := strings.Join(res.Header["Authorization"], ","); got != strings.Join(wantAuth, ",") {
+				out.Violation("headers/wrong-derived-value", "the Authorization response header of the auth-only endpoint is not the one the set-* flags describe",
+					map[string]interface{}{"mask": mask, "set_basic_auth": lh.SetBasicAuth, "set_authorization_header": lh.SetAuthorization, "got": res.Header["Authorization"], "want": wantAuth})
+			}
+		}
 		for k, vs := range res.Header {
 			if strings.Contains(strings.Join(vs, "\x00"), "SPOOF") {
 				out.Violation("headers/client-value-in-auth-response", "the auth-only response echoes a client-supplied header value",
